@@ -206,6 +206,19 @@ def check_pid_wrapper(chk, prog, sim):
                 else:
                     if pid_upd:
                         problems.append("pid.update() called although the terminal sees nothing")
+                if pid_upd:
+                    # the clock / state / command getters must be fed BEFORE the pid is updated in the same round
+                    seq = []
+                    for e in leaf.effects:
+                        if e[0] == "ref_borrow_mut":
+                            seq.append(("w", e[1]))
+                        elif e[0] == "call" and e[2].endswith("::update") and "pid" in e[1]:
+                            seq.append(("pid", e[1]))
+                    pidx = [i for i, x in enumerate(seq) if x[0] == "pid"][0]
+                    for nm, has in (("time", sees), ("state", has_s), ("command", has_c)):
+                        widx = [i for i, x in enumerate(seq) if x[0] == "w" and ("." + nm) in x[1] and "pid" not in x[1]]
+                        if has and (not widx or min(widx) > pidx):
+                            problems.append("pid.update() runs before the %s getter is fed this round's terminal data (order %s)" % (nm, [x[1] for x in seq]))
                 if len(inner_upd) < 1:
                     problems.append("inner.update() not called (events %s)" % ev)
                 if pid_upd and inner_upd and ev.index(pid_upd[0]) > ev.index(inner_upd[-1]):
